@@ -55,7 +55,8 @@ def gen_profile(rng, big=False):
             "hmax": rng.choice([20000.0, 25000.0, rng.uniform(5000, 30000)]), "fill": rng.randrange(10 ** 6),
             "decades": rng.choice([0, 1, 3, 6]), "wind": rng.chance(0.6),
             # how the caller holds the profile: dtype and memory layout are the caller's business
-            "h_int": rng.chance(0.1), "w_int": rng.chance(0.25), "strided": rng.chance(0.15), "readonly": rng.chance(0.15)}
+            "h_int": rng.chance(0.1), "w_int": rng.chance(0.25), "strided": rng.chance(0.15), "readonly": rng.chance(0.15),
+            "dup": rng.weighted([(0, 4), (1, 1), (2, 1)])}          # layers listed at the same height (dome + surface layer)
 
 
 def gen_plan(rng, tier, index=0):
@@ -92,7 +93,8 @@ def gen_plan(rng, tier, index=0):
                           "units": r.weighted([(None, 5), ({"h": 1e-3, "p": 1.0}, 2), ({"h": 1.0, "p": 1e13}, 2), ({"h": 1e-3, "p": 3.7e14}, 2)])})
     if not any(s.get("op") == "og" for s in steps):
         steps.append({"op": "og", "prof": 0, "L": max(1, profs[0]["N"] // 2), "R": 2, "stub": None})
-    return {"ambient": rng.randrange(2 ** 31), "profiles": profs, "steps": steps}
+    from sim.worlds import c03
+    return {"ambient": rng.randrange(2 ** 31), "pool": {"mode": "inproc", "sched": c03.gen_sched(rng.sub("pool"))}, "profiles": profs, "steps": steps}
 
 
 def sample_view(plan):
@@ -118,10 +120,17 @@ def build_profile(sp):
     else:
         centres = rs.uniform(sp["hmin"], sp["hmax"], 3)
         h = numpy.sort(numpy.abs(centres[rs.randint(0, 3, N)] + rs.normal(0, 200, N)))
-    # strictly increasing heights (ties would make 'heights are input heights in increasing order' ambiguous)
+    # increasing heights ...
     for i in range(1, N):
         if h[i] <= h[i - 1]:
             h[i] = h[i - 1] + 1.0
+    # ... except that a few layers may sit at exactly the same height as their neighbour
+    for d in range(int(sp.get("dup", 0))):
+        if N >= 3:
+            j = (sp["fill"] + 7 * d) % (N - 1)
+            h[j + 1] = h[j]
+    if h[-1] <= h[0]:
+        h[-1] = h[0] + 1.0          # a profile of zero thickness is degenerate (the slab width would be 0): not generated
     p = 10.0 ** rs.uniform(-sp["decades"] / 2.0, sp["decades"] / 2.0, N) * 1e-15
     w = rs.uniform(1.0, 40.0, N) if sp["wind"] else None
     if sp.get("w_int") and w is not None:
@@ -129,7 +138,7 @@ def build_profile(sp):
     if sp.get("h_int"):
         h = numpy.round(h).astype("int64")
         for i in range(1, N):
-            if h[i] <= h[i - 1]:
+            if h[i] < h[i - 1] or (h[i] == h[i - 1] and not sp.get("dup")):
                 h[i] = h[i - 1] + 1
     if sp.get("strided"):
         def strided(a):
@@ -236,8 +245,11 @@ def check_og(res, si, h, p, L, out, hist_cls, stub):
     if any(float(x) not in hs for x in hL):
         res.violate("heights", "C18:optimal_grouping:height-not-an-input-height", "returned heights %s are not all input heights" % hL, si)
         return
-    if L > 1 and not (numpy.diff(hL) > 0).all():
+    if L > 1 and not (numpy.diff(hL) >= 0).all():
         res.violate("heights", "C18:optimal_grouping:heights-not-increasing", "returned heights %s" % hL, si)
+        return
+    if L > 1 and not (numpy.diff(hL) > 0).all() and len(set(float(x) for x in h)) == len(h):
+        res.violate("heights", "C18:optimal_grouping:heights-not-increasing", "returned heights %s repeat although the input heights are distinct" % hL, si)
         return
     # reconstruct the contiguous grouping from the strengths
     cp = numpy.concatenate([[0.0], numpy.cumsum(p)])
@@ -343,7 +355,7 @@ def _independent_gctm(g_h, g_c, L, mom0, hs=10000., cs=100e-15):
         return None
 
 
-def execute(plan, keep_log=False):
+def _execute(plan, keep_log=False):
     import numpy
     mods = screens.warm()
     pc = mods["pc"]
@@ -532,3 +544,17 @@ def simplify(plan):
                 if st.get("op") == "eq" and st["prof"] % len(plan["profiles"]) == i:
                     st["wind"] = False
             yield c
+
+
+def execute(plan, keep_log=False):
+    """every pool or executor the library may create while this plan runs is a simulated one (thread pools under the baton
+    scheduler), so that concurrency introduced into these code paths is decided by the plan and replays"""
+    from sim import simpool
+    kern = simpool.Kernel(None, None)
+    kern.__enter__()
+    try:
+        pool = plan.get("pool") or {}
+        kern.configure(pool.get("sched"), pool.get("mode", "inproc"))
+        return _execute(plan, keep_log)
+    finally:
+        kern.__exit__(None, None, None)
